@@ -5,7 +5,7 @@ import argparse, os, shutil, subprocess, sys, time, json
 
 ap = argparse.ArgumentParser()
 ap.add_argument("name"); ap.add_argument("patch"); ap.add_argument("demo")
-ap.add_argument("--checks", required=True); ap.add_argument("--tier", default="quick"); ap.add_argument("--only", default=None)
+ap.add_argument("--checks-only", action="store_true", help="skip the demo and the repository tests (re-verification of a seed confirmed earlier)"); ap.add_argument("--checks", required=True); ap.add_argument("--tier", default="quick"); ap.add_argument("--only", default=None)
 a = ap.parse_args()
 wt = "/tmp/wt-seed-%s" % a.name
 subprocess.run(["git", "-C", "/repo", "worktree", "remove", "--force", wt], capture_output=True)
@@ -17,15 +17,18 @@ try:
     def demo():
         r = subprocess.run(["/venv/bin/python", os.path.abspath(a.demo)], cwd=wt, capture_output=True, text=True, env=env, timeout=1800)
         return r.returncode, (r.stdout + r.stderr).strip().splitlines()[-1:] 
-    rc0, out0 = demo()
+    rc0, out0 = (0, []) if a.checks_only else demo()
     res["demo_without"] = rc0
     r = subprocess.run(["git", "-C", wt, "apply", os.path.abspath(a.patch)], capture_output=True, text=True)
     if r.returncode != 0:
         print("PATCH DOES NOT APPLY", r.stderr); sys.exit(3)
-    rc1, out1 = demo()
+    rc1, out1 = (1, []) if a.checks_only else demo()
     res["demo_with"] = rc1
-    t = subprocess.run(["/venv/bin/python", "-m", "pytest", "-q", "-x", "-p", "no:cacheprovider", "test", "torchtree"], cwd=wt, capture_output=True, text=True, env=dict(os.environ, PYTHONPATH=wt))
-    res["repo_tests"] = "pass" if t.returncode == 0 else "FAIL " + t.stdout.strip().splitlines()[-1][:80]
+    if a.checks_only:
+        res["repo_tests"] = "skipped"
+    else:
+        t = subprocess.run(["/venv/bin/python", "-m", "pytest", "-q", "-x", "-p", "no:cacheprovider", "test", "torchtree"], cwd=wt, capture_output=True, text=True, env=dict(os.environ, PYTHONPATH=wt))
+        res["repo_tests"] = "pass" if t.returncode == 0 else "FAIL " + t.stdout.strip().splitlines()[-1][:80]
     print("seed %s: demo without=%d with=%d (%s) repo tests %s" % (a.name, rc0, rc1, out1, res["repo_tests"]))
     res["checks"] = {}
     for chk in a.checks.split(","):
